@@ -322,6 +322,95 @@ FUEL_DEEP = [
 ]
 
 
+def selfgrow_script(text, steps=6):
+    """A mutator that can be applied again and again, enlarging the input
+    every time, never lets a run end (a command that accepts exactly these
+    inputs exists).  Greedy search: per mutator, follow the proposal that
+    yields the largest input; ``steps`` strict enlargements in a row are a
+    violation (legitimate enlarging rewrites - inlining, substitution of
+    variables or let-bound symbols, bit-width reduction - are exhausted
+    after at most the nesting depth / number of symbols / log2 of the
+    width)."""
+    from ddsmt import nodeio, nodes, smtlib
+    from ddsmt.mutator_utils import apply_simp, Simplification
+    exprs0 = list(nodeio.parse_smtlib(text))
+    n = 0
+    for cls, m in P.all_mutators():
+        exprs = exprs0
+        size = len(SC.tokens(exprs).split(' '))
+        grown = 0
+        trail = []
+        old_ids = None
+        while grown < steps:
+            smtlib.collect_information(exprs)
+            best = None
+            for node in list(nodes.dfs(exprs)):
+                # from the second step on only nodes the previous step
+                # created count: enlarging *what was just inserted* is what
+                # can go on for ever (enlarging other, old places is bounded
+                # by their number)
+                if old_ids is not None and node.id in old_ids:
+                    continue
+                try:
+                    _alarm(10)
+                    if hasattr(m, 'filter') and not m.filter(node):
+                        continue
+                    props = []
+                    if hasattr(m, 'mutations'):
+                        props.extend(m.mutations(node))
+                    if hasattr(m, 'global_mutations'):
+                        props.extend(m.global_mutations(node, exprs))
+                    for p in props:
+                        n += 1
+                        r = apply_simp(exprs, Simplification(
+                            dict(p.substs), list(p.fresh_vars)))
+                        if r is None:
+                            continue
+                        r = r if isinstance(r, list) else [r]
+                        sz = len(SC.tokens(r).split(' '))
+                        if sz > size and (best is None or sz > best[0]):
+                            best = (sz, r, node.__str__()[:50])
+                except Exception:
+                    continue
+                finally:
+                    _alarm(0)
+            if best is None:
+                break
+            old_ids = {x.id for x in nodes.dfs(exprs)}
+            size, exprs = best[0], best[1]
+            trail.append(best[2])
+            grown += 1
+        if grown >= steps:
+            return n, (f'{cls} can be applied {steps} times in a row, each '
+                       f'time enlarging the input (now {size} tokens): '
+                       f'{SC.tokens(exprs)[:300]!r}; nodes: {trail[:3]!r}')
+    return n, None
+
+
+def run_selfgrow():
+    ns_ = None
+    from ddsmt import options, mutators
+    ns_ = options.parse_options(mutators, ['in.smt2', 'out.smt2', 'cmd'])
+    setattr(options, '__PARSED_ARGS', ns_)
+    _logging()
+    t0 = time.time()
+    total = 0
+    bad = None
+    for name, text in list(CYCLE_SCRIPTS.items()) + \
+            [(f'corpus{k}', t) for k, t in enumerate(P.CORPUS)]:
+        n, r = selfgrow_script(text)
+        total += n
+        if r and bad is None:
+            bad = ({'script': name}, f'{name}: {r}')
+    return {'status': 'VIOLATED' if bad else 'CONFIRMED',
+            'cex': bad[0] if bad else None,
+            'exc': {'type': 'Violation', 'msg': bad[1]} if bad else None,
+            'paths': total, 'paths_ok': total, 'samples': [],
+            'solver_checks': 0, 'solver_seconds': 0.0,
+            'wall_s': round(time.time() - t0, 2),
+            'note': 'concrete greedy search (auxiliary)'}
+
+
 def run_fuel():
     """Step bound for every mutator call on the corpus."""
     import ddsmt.nodes as N
@@ -420,13 +509,32 @@ def run_fuel():
 
 # ------------------------------------------------------------ chain (z3)
 
-def chain_once(vec, strategy, name, V):
+def auto_keys(text, n=8):
+    """Key tokens of a script for the required-tokens oracle: its first n
+    distinct tokens that are neither parentheses nor command names."""
+    import re
+    out = []
+    for t in re.findall(r'[^\s()]+', text):
+        if t in out or t.startswith(('declare-', 'define-', 'set-',
+                                     'check-sat', 'assert')):
+            continue
+        out.append(t)
+    return out[:n]
+
+
+def chain_once(vec, strategy, name, V, oracle='hash0'):
     from vlib.stubs.strat import Decider
-    d = Decider(0, replay=list(vec), reserved=V)
     saved = SC.SCRIPTS.get('_c03')
     SC.SCRIPTS['_c03'] = CYCLE_SCRIPTS[name]
     SC.MUTSETS['_all'] = [c for c, _ in P.all_mutators()]
-    env = SC.setup(d, strategy, 1, V, '_c03', '_all', oracle='hash0',
+    if oracle in ('req', 'grow'):
+        # the classic adversary: accepts whatever still contains the chosen
+        # tokens (one bit per key token)
+        SC.KEYS['_c03'] = auto_keys(CYCLE_SCRIPTS[name], V)
+        d = Decider(V, replay=list(vec))
+    else:
+        d = Decider(0, replay=list(vec), reserved=V)
+    env = SC.setup(d, strategy, 1, V, '_c03', '_all', oracle=oracle,
                    maxwrites=40, norm_fresh=False)
     try:
         try:
@@ -457,11 +565,13 @@ def chain_once(vec, strategy, name, V):
     return None, d.read
 
 
-def make_chain(strategy, name, tier):
+def make_chain(strategy, name, tier, oracle='hash0'):
     V = 8 if tier == 'quick' else 11
+    if oracle in ('req', 'grow'):
+        V = len(auto_keys(CYCLE_SCRIPTS[name], 8 if tier == 'quick' else 10))
 
     def once(vec):
-        return chain_once(vec, strategy, name, V)
+        return chain_once(vec, strategy, name, V, oracle)
 
     def run():
         from vlib.engine import explore_choices
@@ -483,6 +593,20 @@ def partitions(tier):
                           'run': make_chain(st, name, tier),
                           'budget_s': 170 if tier == 'quick' else 850,
                           'bounds': {'strategy': st, 'script': name}})
+            if 'define-fun' in CYCLE_SCRIPTS[name] or 'let' in \
+                    CYCLE_SCRIPTS[name]:
+                parts.append({'name': f'chaingrow_{st}_{name}',
+                              'kind': 'choices',
+                              'run': make_chain(st, name, tier, 'grow'),
+                              'budget_s': 170 if tier == 'quick' else 850,
+                              'bounds': {'strategy': st, 'script': name,
+                                         'oracle': 'required tokens, never '
+                                                   'shrinking'}})
+            parts.append({'name': f'chainreq_{st}_{name}', 'kind': 'choices',
+                          'run': make_chain(st, name, tier, 'req'),
+                          'budget_s': 170 if tier == 'quick' else 850,
+                          'bounds': {'strategy': st, 'script': name,
+                                     'oracle': 'required tokens'}})
         for lo in range(0, 400, 50):
             parts.append({'name': f'pairs_{name}_{lo}', 'kind': 'native',
                           'run': (lambda name=name, lo=lo:
@@ -499,6 +623,8 @@ def partitions(tier):
                       'budget_s': 900, 'bounds': {'families': len(chunk)}})
     parts.append({'name': 'fuel', 'kind': 'native', 'run': run_fuel,
                   'budget_s': 600})
+    parts.append({'name': 'selfgrow', 'kind': 'native', 'run': run_selfgrow,
+                  'budget_s': 600})
     return parts
 
 
@@ -506,6 +632,12 @@ def replay(part, cex):
     import os
     tier = os.environ.get('VERIF_TIER_REPLAY', 'quick')
     try:
+        if part.startswith('chainreq') or part.startswith('chaingrow'):
+            kind, st, name = part.split('_')
+            V = len(auto_keys(CYCLE_SCRIPTS[name],
+                              8 if tier == 'quick' else 10))
+            r, _ = chain_once(cex['bits'], st, name, V, kind[5:])
+            return None if r in (None, 'skip') else r
         if part.startswith('chain'):
             _, st, name = part.split('_')
             r, _ = chain_once(cex['bits'], st, name,
@@ -520,6 +652,14 @@ def replay(part, cex):
             _, name, lo = part.split('_')
             r = run_pairs(name, int(lo), int(lo) + 50, known_cycle)
             return r['exc']['msg'] if r['exc'] else None
+        if part == 'selfgrow':
+            texts = dict(CYCLE_SCRIPTS)
+            texts.update({f'corpus{k}': t for k, t in enumerate(P.CORPUS)})
+            from ddsmt import options, mutators
+            setattr(options, '__PARSED_ARGS', options.parse_options(
+                mutators, ['in.smt2', 'out.smt2', 'cmd']))
+            _logging()
+            return selfgrow_script(texts[cex['script']])[1]
         if part == 'fuel':
             r = run_fuel()
             return r['exc']['msg'] if r['exc'] else None
